@@ -722,7 +722,17 @@ func (r *Request) do() (resp *Response, err error) {
 				r.retryOption.RetryHooks[i](resp, err)
 			}
 		}
-		time.Sleep(r.retryOption.GetRetryInterval(resp, r.RetryAttempt))
+		// wait for the retry interval, but stop waiting (and retrying) as soon as
+		// the request's context is canceled or its deadline passes.
+		timer := time.NewTimer(r.retryOption.GetRetryInterval(resp, r.RetryAttempt))
+		select {
+		case <-r.Context().Done():
+			timer.Stop()
+			err = r.Context().Err()
+			resp.Err = err
+			return
+		case <-timer.C:
+		}
 
 		// clean up before retry
 		if r.dumpBuffer != nil {
